@@ -10,9 +10,9 @@ use serde_json::json;
 
 use crate::{guarded, rng::Rng, Args, Log};
 
-const INNER: &[&str] = &[".", "..", "a", "b", "a.b"];
-const FROM_FILES: &[&str] = &["a", "b", "a.b", "ts", "x.ts", "yts", "z.ts.ts", "b.ts"];
-const IMPORT_FILES: &[&str] = &["a.ts", "b.ts", "a.b.ts", "ts.ts", "x.ts", "yts.ts", "z.ts.ts", ".ts"];
+const INNER: &[&str] = &[".", "..", "a", "b", "a.b", "..a", "..."];
+const FROM_FILES: &[&str] = &["a", "b", "a.b", "ts", "x.ts", "yts", "z.ts.ts", "b.ts", "..f.ts"];
+const IMPORT_FILES: &[&str] = &["a.ts", "b.ts", "a.b.ts", "ts.ts", "x.ts", "yts.ts", "z.ts.ts", ".ts", "..f.ts"];
 const BASES: &[&str] = &["./bindings", "out", "/abs/base", "p/../q/./r", "", ".", "./x/../../y"];
 
 /// Lexical normalisation of `p` against `cwd`. `None` = the path climbs above the root.
